@@ -179,15 +179,15 @@ func genC01(w *simrt.Choices, tier string, avoid map[string]bool) Case {
 type expCount struct{ min, max int }
 
 type c01Run struct {
-	c      *Ctx
-	k      *c01Case
-	expect map[string]*expCount // "mailbox\x00token"
-	maybe  map[string]bool      // tokens whose transaction may or may not have completed (client did not read the reply)
-	data   map[string][]byte    // token -> transmitted data
-	from   map[string]string    // token -> header From address
-	to     map[string][]string  // token -> header To addresses
-	pol    *models.Policy
-	txnBase []int // number of the first transaction of each client, counted over all clients
+	c       *Ctx
+	k       *c01Case
+	expect  map[string]*expCount // "mailbox\x00token"
+	maybe   map[string]bool      // tokens whose transaction may or may not have completed (client did not read the reply)
+	data    map[string][]byte    // token -> transmitted data
+	from    map[string]string    // token -> header From address
+	to      map[string][]string  // token -> header To addresses
+	pol     *models.Policy
+	txnBase []int               // number of the first transaction of each client, counted over all clients
 	refused map[string][]string // token -> mailboxes of a transaction refused after an injected disk fault
 }
 
